@@ -18,6 +18,7 @@ Definition out_eqb (a b : out) : bool :=
   | OInit t p s x, OInit t' p' s' x' => (t =? t') && (p =? p') && (s =? s') && (x =? x')
   | OResp t p s r o, OResp t' p' s' r' o' => (t =? t') && (p =? p') && (s =? s') && (r =? r') && Bool.eqb o o'
   | OTrans t p r l, OTrans t' p' r' l' => (t =? t') && (p =? p') && (r =? r') && (l =? l')
+  | OCookie t r, OCookie t' r' => (t =? t') && (r =? r')
   | _, _ => false
   end.
 
@@ -41,15 +42,28 @@ Definition same_state (a b : obs) : bool :=
 Definition in_progress (prev : obs) (idx : N) : bool :=
   existsb (fun s => (nth 1 s 0 =? 1) && (nth 2 s 0 =? idx)) (o_snap prev).
 
-(* First sentence of the property: such a message must be inert. *)
-Definition bad (prev : obs) (m : msg) : bool :=
+(* First sentence of the property: such a message must be inert.
+   bad_mac1: truncated/extended, foreign type word, altered below smac2 without
+   recomputing MAC1, MAC1 keyed for somebody else — inert and SILENT whether or
+   not the device is under load (nothing is said to a party that cannot produce
+   a valid MAC1).
+   bad_deep: valid MAC1 but an AEAD-protected field altered, or a response not
+   addressed to a handshake in progress — inert when not under load (under load
+   a cookie reply is the legitimate reaction to any valid-MAC1 message: C10). *)
+Definition bad_mac1 (m : msg) : bool :=
   let k := m_kind m in
   negb (wire_type m =? type_of k)
   || negb (m_len m =? size_of k)
   || (negb (m_remac m) && covered_altered k m)
-  || negb (m_mac1key m =? 0)
-  || altered k FEphemeral m || altered k FEncStatic m || altered k FEncTimestamp m || altered k FEmpty m
+  || negb (m_mac1key m =? 0).
+
+Definition bad_deep (prev : obs) (m : msg) : bool :=
+  let k := m_kind m in
+  altered k FEphemeral m || altered k FEncStatic m || altered k FEncTimestamp m || altered k FEmpty m
   || match k with KResp => negb (in_progress prev (m_receiver m)) | KInit => false end.
+
+Definition bad (under_load : bool) (prev : obs) (m : msg) : bool :=
+  bad_mac1 m || (negb under_load && bad_deep prev m).
 
 (* An initiation the device emitted.  em_strict is cleared when the harness
    moved the peer's handshake times with the VerifShiftHandshakeTimes hook: the
@@ -62,7 +76,8 @@ Record sst := {
   emitted : list em;             (* initiations the device emitted, newest first *)
   answered : list N;             (* sequence numbers that already produced a session *)
   nemit : N;
-  prev : obs
+  prev : obs;
+  sloaded : bool                 (* VerifForceUnderLoad in effect *)
 }.
 
 Definition flood_sure : N := rate / 4.   (* 5 ms: measured gaps below this are certainly inside the 20 ms *)
@@ -91,7 +106,10 @@ Fixpoint record_emitted (o : list out) (l : list em) (n : N) (bad6 : bool) : lis
 Definition shift_spec (s : sst) (p d : N) (l : list em) (n : N) (o : obs) : sst :=
   {| acc := map (fun x => if fst (fst x) =? p then (fst x, snd x - d) else x) (acc s);
      emitted := map (fun x => if em_p x =? p then {| em_p := p; em_seq := em_seq x; em_ts := em_ts x; em_strict := false |} else x) l;
-     answered := answered s; nemit := n; prev := o |}.
+     answered := answered s; nemit := n; prev := o; sloaded := sloaded s |}.
+
+Definition upd (s : sst) (a : list (N * N * N)) (l : list em) (ans : list N) (n : N) (o : obs) : sst :=
+  {| acc := a; emitted := l; answered := ans; nemit := n; prev := o; sloaded := sloaded s |}.
 
 (* clause numbers:
    1 bad message not inert          2 accepted initiation not strictly newer
@@ -104,7 +122,7 @@ Definition clauses (s : sst) (t : tstep) : list N * sst :=
   let c6 := if bad6 then [6] else [] in
   match e_body (s_ev t) with
   | BMsg src m =>
-      let c1 := if bad (prev s) m && negb (list_eqb out_eqb (o_out o) [] && same_state o (prev s)) then [1] else [] in
+      let c1 := if bad (sloaded s) (prev s) m && negb (list_eqb out_eqb (o_out o) [] && same_state o (prev s)) then [1] else [] in
       match m_kind m with
       | KInit =>
           match resp_peer (o_out o) with
@@ -113,8 +131,8 @@ Definition clauses (s : sst) (t : tstep) : list N * sst :=
               let c2 := if existsb (fun x => m_ts m <=? snd (fst x)) mine then [2] else [] in
               let c3 := if existsb (fun x => now - snd x <? flood_sure) mine then [3] else [] in
               (c1 ++ c2 ++ c3 ++ c6,
-               {| acc := (p, m_ts m, now) :: acc s; emitted := em; answered := answered s; nemit := n; prev := o |})
-          | None => (c1 ++ c6, {| acc := acc s; emitted := em; answered := answered s; nemit := n; prev := o |})
+               upd s ((p, m_ts m, now) :: acc s) em (answered s) n o)
+          | None => (c1 ++ c6, upd s (acc s) em (answered s) n o)
           end
       | KResp =>
           match trans_peer (o_out o) with
@@ -122,12 +140,13 @@ Definition clauses (s : sst) (t : tstep) : list N * sst :=
               let c4 := if m_ans m =? latest_seq (emitted s) p then [] else [4] in
               let c5 := if existsb (N.eqb (m_ans m)) (answered s) then [5] else [] in
               (c1 ++ c4 ++ c5 ++ c6,
-               {| acc := acc s; emitted := em; answered := m_ans m :: answered s; nemit := n; prev := o |})
-          | None => (c1 ++ c6, {| acc := acc s; emitted := em; answered := answered s; nemit := n; prev := o |})
+               upd s (acc s) em (m_ans m :: answered s) n o)
+          | None => (c1 ++ c6, upd s (acc s) em (answered s) n o)
           end
       end
   | BShift p d => (c6, shift_spec s p d em n o)
-  | _ => (c6, {| acc := acc s; emitted := em; answered := answered s; nemit := n; prev := o |})
+  | BLoad on => (c6, {| acc := acc s; emitted := em; answered := answered s; nemit := n; prev := o; sloaded := on |})
+  | _ => (c6, upd s (acc s) em (answered s) n o)
   end.
 
 Fixpoint holds_from (s : sst) (tr : list tstep) (i : N) : list (N * N) :=
@@ -136,7 +155,7 @@ Fixpoint holds_from (s : sst) (tr : list tstep) (i : N) : list (N * N) :=
   | t :: r => let '(cs, s') := clauses s t in map (fun c => (i, c)) cs ++ holds_from s' r (i + 1)
   end.
 
-Definition sinit (o0 : obs) : sst := {| acc := []; emitted := []; answered := []; nemit := 0; prev := o0 |}.
+Definition sinit (o0 : obs) : sst := {| acc := []; emitted := []; answered := []; nemit := 0; prev := o0; sloaded := false |}.
 
 (* failing (step, clause) pairs; [] = the property holds on the trace *)
 Definition violations (o0 : obs) (tr : list tstep) : list (N * N) := holds_from (sinit o0) tr 0.
